@@ -13,7 +13,7 @@ LEVEL = "exploration"
 SHARDS = {"quick": 16, "thorough": 16}
 RULE = ("histories of 4-14 steps over a generated universe: create(entity) materialises a path-backed entity in the local tree, "
         "query(search) checks on FindInList / FindInPaths / FindInAll that exists(s) == bool(list(find(s))), find_one(s) == first(find(s)) "
-        "(empty Sid / None when nothing) and that as_sid=False yields the strings of the as_sid=True results; probe(sid) checks sid.exists(), "
+        "(empty Sid / None when nothing) and that as_sid=False yields the strings of the as_sid=True results (one query in four is given as a Sid object); probe(sid) checks sid.exists(), "
         "children(), siblings() against the reference existence model (existing, non-existing, leaf and untyped Sids) and that every existing "
         "file-system backed entity has an existing parent. Every query / probe is evaluated on the state reached so far (new Finder instances). "
         "non-trivial = history with a create between two queries / probes; distinct = distinct history")
